@@ -35,10 +35,10 @@ Theorem C12_only_these_enter_cfgmode : forall b32 bl fc ins rs evs t,
     cause_enter (fst (run_from init (Boot b32 bl fc ins rs :: pre))) pre e.
 Proof. exact (only_these_enter_cfgmode_thm code_shape_holds). Qed.
 Print Assumptions C12_only_these_enter_cfgmode.
-(* Clause (b) is proved for the NUMBER of state changes (>= PRESS_COUNT on an input with on-toggle enabled).
-   The full clause "each of the ten within the chaining window of the previous one, in true time"
-       forall ..., cause (b) -> the last PRESS_COUNT changes of input i are pairwise less than 2 s apart
-   is false of the faithful model (32-bit time differences): C12_toggle_chain_u32_wrap_refuted. *)
+(* Clause (b) above gives the NUMBER of state changes; the timing ("in quick succession") is
+   C12_toggle_entry_is_quick_chain / C12_toggle_entry_quick_in_true_time (legacy handler) and
+   C12_toggle_entry_advanced (ActionTrigger handler) below; it fails in true time exactly for pauses of a full period of the
+   32-bit counter: C12_toggle_chain_u32_wrap_refuted, C12_toggle_wrap_witness_changes (known finding toggle-gap-u32-wrap). *)
 
 (* Clause (b) in time — legacy input handler (inputs without active ActionTriggers).
    Vocabulary (C12/Chain.v): changes i evs = state changes (time, new state) of input i in evs, most recent first;
@@ -96,6 +96,42 @@ Theorem C12_toggle_wrap_witness_changes :
   4294967296 > CHAIN_WINDOW_US.
 Proof. exact wrap_witness_changes_thm. Qed.
 Print Assumptions C12_toggle_wrap_witness_changes.
+
+(* Clause (b), ActionTrigger ("advanced") input handler.  The source has NO time test at the notification there
+   (supla_esp_input_advanced_state_change_handling only counts); old clicks are forgotten by the input's timer callback
+   (supla_esp_input_advanced_timer_cb): once MULTICLICK_TIME_MS have passed since the last change (32-bit difference) and the
+   input is released — or is a toggle switch / motion sensor — the counter is cleared.  arun_n i ty evs is that rule on the
+   history: the number of counted state changes of input i (changes to "active", or all changes of a toggle type) since the
+   last such time-out Tick.  adv_in i ty s: input i has type ty and is served by the ActionTrigger handler.
+   A toggle entry implies on-toggle enabled and arun_n >= PRESS_COUNT: that many counted changes with no time-out tick between
+   them.  (That the armed 20 ms timer does fire is the scheduler's business — C11; with it every release->next-change gap, and
+   every gap of a toggle type, is below MULTICLICK_TIME_MS + one timer period; a push button held down does not time out.) *)
+Theorem C12_toggle_entry_advanced : forall b32 bl fc ins rs pre stt t i ty,
+  Forall ev_ok pre ->
+  (forall p q, pre = p ++ q -> adv_in i ty (fst (run_from init (Boot b32 bl fc ins rs :: p)))) ->
+  let s1 := fst (run_from init (Boot b32 bl fc ins rs :: pre)) in
+  In (EnterCfg t) (snd (step s1 (Notify i stt))) ->
+  exists x, getn (inputs s1) i = Some x /\ toggle_enabled x = true /\ PRESS_COUNT <= arun_n i ty (pre ++ [Notify i stt]).
+Proof. exact (toggle_entry_advanced_thm code_shape_holds). Qed.
+Print Assumptions C12_toggle_entry_advanced.
+
+Theorem C12_advanced_run_times_out : forall i ty pre,
+  let '(t, ph, tl, n) := arun i ty pre in
+  ((ph =? STATE_INACTIVE) || tog ty) = true -> MULTICLICK_TIME_MS * 1000 <= u32 (t - tl) ->
+  arun_n i ty (pre ++ [Tick i]) = 0.
+Proof. exact arun_timeout_thm. Qed.
+Print Assumptions C12_advanced_run_times_out.
+
+Example C12_toggle_advanced_nonvacuous :
+  let s1 := fst (run_from init (w_boot_at :: w_adv_pre)) in
+  Forall ev_ok w_adv_pre /\
+  (forall p q, w_adv_pre = p ++ q -> adv_in 0 TYPE_BISTABLE (fst (run_from init (w_boot_at :: p)))) /\
+  In (EnterCfg (now s1)) (snd (step s1 (Notify 0 0))) /\
+  arun_n 0 TYPE_BISTABLE (w_adv_pre ++ [Notify 0 0]) = 10 /\
+  run (w_boot_at :: w_adv_pre ++ [Time 220000; Tick 0; Notify 0 0]) = [] /\
+  arun_n 0 TYPE_BISTABLE (w_adv_pre ++ [Time 220000; Tick 0; Notify 0 0]) = 1.
+Proof. exact advanced_nonvacuous_thm. Qed.
+Print Assumptions C12_toggle_advanced_nonvacuous.
 
 (* nothing happens before the first boot *)
 Theorem C12_preboot_ignored : forall pre evs,
